@@ -3,7 +3,7 @@
 # reports whether every stable-pass test passes.  usage: tools/baseline.sh [tree]   (default /repo)
 TREE="${1:-/repo}"
 OUT="$(mktemp /tmp/baseline.XXXXXX.xml)"
-cd "$TREE" && PYTHONPATH="$TREE" /venv/bin/python -m pytest -ra -q -p no:cacheprovider --timeout=900 --continue-on-collection-errors --junitxml="$OUT" >/dev/null 2>&1
+cd "$TREE" && PYTHONPATH="$TREE" timeout 300 /venv/bin/python -m pytest -ra -q -p no:cacheprovider --timeout=60 --continue-on-collection-errors --junitxml="$OUT" >/dev/null 2>&1
 /venv/bin/python - "$OUT" <<'PY'
 import json, sys, xml.etree.ElementTree as ET
 base = json.load(open("/root/.vp/BASELINE.json"))
